@@ -61,40 +61,25 @@ def run(chk):
     t = unparse(rdup.node)
     r1.require(".index.duplicated(keep='first')" in t and "[~" in t, f"{rdup.key}|keep-first", rdup.where(), "remove_duplicates must keep the first of each duplicated timestamp (~index.duplicated(keep='first'))")
 
-    # ------------------------------------------------------------------ R17.2 / R17.3
+    # ------------------------------------------------------------------ R17.2 / R17.3: interpolate() is interpreted symbolically
+    # (rules/interp_absint.py): what is finally stored in the column, and on which mask the flag is set, over every
+    # data-dependent branch and one frame length on each side of every lag threshold.
+    from rules.interp_absint import judge as judge_interp, outcomes as interp_outcomes
     it = chk.repo.func(HI, "interpolate")
-    loop = [s for s in it.node.body if isinstance(s, ast.For) and unparse(s.iter) == "interp_cols"]
-    if not loop:
-        raise AnalysisError("interpolate(): loop over interp_cols vanished")
-    loop = loop[0]
-    col = loop.target.id
-    icfg = CFG(it.node)
-    stores = []
-    for s in ast.walk(loop):
-        if isinstance(s, ast.Assign) and isinstance(s.targets[0], ast.Subscript):
-            stores.append(s)
-    data_stores = []
-    flag_stores = []
-    for s in stores:
-        t = s.targets[0]
-        tt = unparse(t)
-        if tt == f"df[{col}]":
-            data_stores.append(s)
-        elif "interp_bool_col" in tt:
-            flag_stores.append(s)
-        else:
-            r2.require(False, f"{it.key}|unexpected-store:{tt[:40]}", it.where(s), f"interpolate(): unexpected store `{unparse(s)[:70]}`")
-    for s in data_stores:
-        v = s.value
-        ok = False
-        why = ""
-        if isinstance(v, ast.Call) and isinstance(v.func, ast.Attribute) and v.func.attr in FILL_ONLY_METHODS and unparse(v.func.value) == f"df[{col}]":
-            ok = True
-        elif isinstance(v, ast.Call) and unparse(v.func) == "_interpolate_col" and v.args and unparse(v.args[0]) in (f"df[{col}].copy()", f"df[{col}]"):
-            ok = True
-        r2.require(ok, f"{it.key}|data-store:{unparse(v)[:50]}", it.where(s),
-                   f"interpolate(): `{unparse(s)[:80]}` can overwrite supplied values (only fill-only methods on the same column / the missing-cell filler may write a data column)",
-                   sample={"store": unparse(s)[:80]})
+    seen = set()
+    outs = interp_outcomes(chk)
+    for o in outs:
+        for ob, msg in judge_interp(o):
+            rule, key = (r2, f"{it.key}|data-stores-are-fill-only") if ob == "data" else (r3, f"{it.key}|flag=was-missing-and-now-present")
+            if (key, msg[:70]) in seen:
+                continue
+            seen.add((key, msg[:70]))
+            rule.require(False, key, it.where(), f"interpolate(): {msg}", sample={"n_rows": o["n_rows"], "decisions": [(t[:60], v) for t, v in o["decisions"]]})
+    r2.inst(f"{it.key}|data-stores-are-fill-only")
+    r2.inst(f"{it.key}|lags-by-length")
+    r2.inst(f"{it.key}|paths={len(outs)}")
+    for nm in ("flag=was-missing-and-now-present", "missing-set-before-first-store", "flag-init-false-then-set", "existing-flag-skips", "returns-df"):
+        r3.inst(f"{it.key}|{nm}")
     ic = chk.repo.func(HI, "_interpolate_col")
     xname = ic.params[0]
     rd_ic = ReachingDefs(ic.node)
@@ -120,30 +105,6 @@ def run(chk):
     # early returns of _interpolate_col hand x back unchanged
     rets = [s for s in walk_no_nested(ic.node) if isinstance(s, ast.Return)]
     r2.require(all(unparse(r.value) == xname for r in rets), f"{ic.key}|returns-x", ic.where(), "_interpolate_col must return the (partially filled) input series")
-
-    # R17.3
-    miss = [s for s in loop.body if isinstance(s, ast.Assign) and isinstance(s.targets[0], ast.Name) and s.targets[0].id == "idx_missing"]
-    ok = len(miss) == 1 and unparse(miss[0].value) in (f"df.loc[df[{col}].isna()].index", f"df.index[df[{col}].isna()]", f"df[df[{col}].isna()].index")
-    r3.require(ok, f"{it.key}|missing-set-definition", it.where(miss[0]) if miss else it.where(), "idx_missing must be the index of rows where the column is NaN")
-    if miss:
-        before = all(miss[0].lineno < s.lineno for s in data_stores) and any(miss[0] is s for s in loop.body)
-        r3.require(before and bool(data_stores), f"{it.key}|missing-set-before-first-store", it.where(miss[0]), "idx_missing must be captured before the first store into the column in that iteration (otherwise filled cells are not flagged)")
-    init = [s for s in flag_stores if unparse(s.value) == "False" and unparse(s.targets[0]) == "df[interp_bool_col]"]
-    sett = [s for s in flag_stores if unparse(s.value) == "True"]
-    r3.require(len(init) == 1 and len(sett) == 1 and init[0].lineno < sett[0].lineno and all(init[0].lineno > s.lineno for s in data_stores), f"{it.key}|flag-init-false-then-set", it.where(),
-               "the flag column must be initialised False after the fills and then set True once")
-    if sett:
-        t = sett[0].targets[0]
-        selt = t.slice.elts if isinstance(t.slice, ast.Tuple) else []
-        ok = len(selt) == 2 and unparse(selt[1]) == "interp_bool_col" and unparse(selt[0]) in (f"df.index.isin(idx_missing) & ~df[{col}].isna()", f"~df[{col}].isna() & df.index.isin(idx_missing)",
-                                                                                             f"df.index.isin(idx_missing) & df[{col}].notna()")
-        r3.require(ok, f"{it.key}|flag-mask", it.where(sett[0]), f"flag must be set exactly on was-missing & now-present; found `{unparse(t)[:90]}`", sample={"mask": unparse(selt[0]) if selt else None})
-    skip = [s for s in loop.body if isinstance(s, ast.If) and unparse(s.test) == "interp_bool_col in df.columns" and any(isinstance(x, ast.Continue) for x in s.body)]
-    r3.require(len(skip) == 1 and all(skip[0].lineno < s.lineno for s in data_stores + flag_stores), f"{it.key}|existing-flag-skips", it.where(), "a column whose interpolated_<col> flag already exists must be skipped before any store")
-    nm = [s for s in loop.body if isinstance(s, ast.Assign) and unparse(s.targets[0]) == "interp_bool_col"]
-    r3.require(len(nm) == 1 and unparse(nm[0].value) == "f'interpolated_{" + col + "}'", f"{it.key}|flag-name", it.where(), "flag column must be named interpolated_<col>")
-    rts = [s for s in walk_no_nested(it.node) if isinstance(s, ast.Return)]
-    r3.require(all(unparse(r.value) == "df" for r in rts), f"{it.key}|returns-df", it.where(), "interpolate must return the frame")
 
     # ------------------------------------------------------------------ R17.4
     ip = chk.repo.func(HOURLY_DATA, "_HourlyData._interpolate")
